@@ -169,7 +169,7 @@ theorem lcl_readFragLoop_mid {σ} (hook : ObjHook σ) (hh : Cli.lci_HookOk hook)
       dsimp only
       have m3 := m2 raw rfl rfl
       split
-      · exact ⟨fin, fun _ _ => m3⟩
+      · split <;> exact ⟨fin, fun _ _ => m3⟩
       · split
         · have m4 := Cli.lcl_Mid_draw m3 (by omega)
           have ho2 := Cli.lcl_Open_next ho1
@@ -178,8 +178,10 @@ theorem lcl_readFragLoop_mid {σ} (hook : ObjHook σ) (hh : Cli.lci_HookOk hook)
             (allOk && (tagResp raw).valid) ho2 m4 (by omega)
           exact ⟨Cli.lcl_Mid_mono k1 (by omega) (by omega), fun x hx => Cli.lcl_Mid_mono (k2 x hx) ha1 (by omega)⟩
         · split
-          · split <;> exact ⟨fin, fun _ _ => m3⟩
           · exact ⟨fin, fun _ _ => m3⟩
+          · split
+            · split <;> exact ⟨fin, fun _ _ => m3⟩
+            · exact ⟨fin, fun _ _ => m3⟩
 
 theorem lcl_writeFragSend_mid {σ} (hook : ObjHook σ) (hh : Cli.lci_HookOk hook) (hn : Cli.lcs_HookNoSeq hook) (S : Prop)
     (req : WriteReq) (segs : List (Nat × Bytes)) :
